@@ -215,27 +215,28 @@ Section Dec.
 End Dec.
 
 Lemma rsn_decode_exact : forall buf rd base len, wfbytes buf -> agrees rd buf ->
-  0 <= base -> 6 <= len -> base + len <= zlen buf ->
+  0 <= base -> 0 <= len -> base + len <= zlen buf ->
   get_rsn_info rd base (base + len) =
     Done (match s_rsn_decode (slice base len buf) with Some i => Ok i | None => Err (- EINVAL) end).
 Proof.
-  intros buf rd base len Hwf Hag Hb Hl Hfit.
-  assert (Hl0 : 0 <= len) by lia.
+  intros buf rd base len Hwf Hag Hb Hl0 Hfit.
   unfold get_rsn_info, s_rsn_decode.
   rewrite (b_len buf base len Hb Hl0 Hfit).
-  destruct (len <? 6) eqn:C6; [lia|].
+  change suite_len with 4.
+  destruct (base + len - base <? 2 + 4) eqn:C6'; destruct (len <? 6) eqn:C6; try lia; [reflexivity|].
   assert (Hv : rd_le rd 2 base = Done (le16 (slice base len buf) 0)).
   { pose proof (rd_le16_exact buf rd Hag base len Hb Hfit 0 ltac:(lia) ltac:(lia)) as Hv.
     rewrite Z.add_0_r in Hv. exact Hv. }
   rewrite Hv. cbn [bind].
   rewrite (rd_suite_exact buf rd Hag base len Hb Hfit) by lia. cbn [bind].
-  change suite_len with 4.
+  destruct (base + len =? base + 2 + 4) eqn:Ce; destruct (len =? 6) eqn:Ce'; try lia; [reflexivity|].
   destruct (base + len <? base + 2 + 4) eqn:C; [lia|].
   replace (base + 2 + 4) with (base + 6) by lia.
   rewrite (rd_suite_list_exact buf rd Hwf Hag base len Hb Hl0 Hfit) by lia. cbn [bind].
   destruct (s_suite_list (slice base len buf) 6) as [[pw o2]|] eqn:E1; [|reflexivity].
   assert (Ho2 : 0 <= o2).
   { eapply s_suite_list_off; [apply wfbytes_slice; exact Hwf | | exact E1]; lia. }
+  destruct (base + len =? base + o2) eqn:Cf; destruct (len =? o2) eqn:Cf'; try lia; [reflexivity|].
   rewrite (rd_suite_list_exact buf rd Hwf Hag base len Hb Hl0 Hfit) by lia. cbn [bind].
   destruct (s_suite_list (slice base len buf) o2) as [[ak o3]|] eqn:E2; [|reflexivity].
   assert (Ho3 : 0 <= o3).
@@ -246,26 +247,51 @@ Proof.
     rewrite (rd_le16_exact buf rd Hag base len Hb Hfit) by lia. reflexivity.
 Qed.
 
-Lemma wpa_decode_exact : forall buf rd base len, wfbytes buf -> agrees rd buf ->
-  0 <= base -> 10 <= len -> base + len <= zlen buf ->
-  get_wpa_info rd (base + 4) (base + len) =
-    Done (match s_wpa_decode (slice base len buf) with Some i => Ok i | None => Err (- EINVAL) end).
+(* the WPA decoder is called behind the h-octet header of the element body: h = 4 (OUI, type) when called by the
+   Microsoft element handler, h = 0 when called directly on a byte range.  A body shorter than h + 6 octets (even
+   shorter than the header) is refused before any read *)
+Definition s_wpa_decode_h (h : Z) (b : list byte) : option wpa_info :=
+  if zlen b <? h + 6 then None else
+  if zlen b =? h + 6 then Some {| wi_version := le16 b h; wi_multicast := s_suite_at b (h + 2); wi_unicast := []; wi_akms := [] |} else
+  match s_suite_list b (h + 6) with
+  | None => None
+  | Some (uc, o2) =>
+    if zlen b =? o2 then Some {| wi_version := le16 b h; wi_multicast := s_suite_at b (h + 2); wi_unicast := uc; wi_akms := [] |} else
+    match s_suite_list b o2 with
+    | None => None
+    | Some (ak, _) => Some {| wi_version := le16 b h; wi_multicast := s_suite_at b (h + 2); wi_unicast := uc; wi_akms := ak |}
+    end
+  end.
+Lemma s_wpa_decode_h4 b : s_wpa_decode_h 4 b = s_wpa_decode b.
+Proof. reflexivity. Qed.
+
+Lemma wpa_decode_exact_h : forall h buf rd base len, wfbytes buf -> agrees rd buf ->
+  0 <= h -> 0 <= base -> 0 <= len -> base + len <= zlen buf ->
+  get_wpa_info rd (base + h) (base + len) =
+    Done (match s_wpa_decode_h h (slice base len buf) with Some i => Ok i | None => Err (- EINVAL) end).
 Proof.
-  intros buf rd base len Hwf Hag Hb Hl Hfit.
-  assert (Hl0 : 0 <= len) by lia.
-  unfold get_wpa_info, s_wpa_decode.
+  intros h buf rd base len Hwf Hag Hh Hb Hl0 Hfit.
+  unfold get_wpa_info, s_wpa_decode_h.
   rewrite (b_len buf base len Hb Hl0 Hfit).
-  destruct (len <? 10) eqn:C6; [lia|].
-  rewrite (rd_le16_exact buf rd Hag base len Hb Hfit) by lia. cbn [bind].
-  replace (base + 4 + 2) with (base + 6) by lia.
-  rewrite (rd_suite_exact buf rd Hag base len Hb Hfit) by lia. cbn [bind].
   change suite_len with 4.
-  destruct (base + len <? base + 6 + 4) eqn:C; [lia|].
-  replace (base + 6 + 4) with (base + 10) by lia.
+  destruct (base + len - (base + h) <? 2 + 4) eqn:C6'; destruct (len <? h + 6) eqn:C6; try lia; [reflexivity|].
+  rewrite (rd_le16_exact buf rd Hag base len Hb Hfit) by lia. cbn [bind].
+  replace (base + h + 2) with (base + (h + 2)) by lia.
+  rewrite (rd_suite_exact buf rd Hag base len Hb Hfit) by lia. cbn [bind].
+  destruct (base + len =? base + (h + 2) + 4) eqn:Ce; destruct (len =? h + 6) eqn:Ce'; try lia; [reflexivity|].
+  destruct (base + len <? base + (h + 2) + 4) eqn:C; [lia|].
+  replace (base + (h + 2) + 4) with (base + (h + 6)) by lia.
   rewrite (rd_suite_list_exact buf rd Hwf Hag base len Hb Hl0 Hfit) by lia. cbn [bind].
-  destruct (s_suite_list (slice base len buf) 10) as [[pw o2]|] eqn:E1; [|reflexivity].
+  destruct (s_suite_list (slice base len buf) (h + 6)) as [[pw o2]|] eqn:E1; [|reflexivity].
   assert (Ho2 : 0 <= o2).
   { eapply s_suite_list_off; [apply wfbytes_slice; exact Hwf | | exact E1]; lia. }
+  destruct (base + len =? base + o2) eqn:Cf; destruct (len =? o2) eqn:Cf'; try lia; [reflexivity|].
   rewrite (rd_suite_list_exact buf rd Hwf Hag base len Hb Hl0 Hfit) by lia. cbn [bind].
   destruct (s_suite_list (slice base len buf) o2) as [[ak o3]|] eqn:E2; reflexivity.
 Qed.
+
+Lemma wpa_decode_exact : forall buf rd base len, wfbytes buf -> agrees rd buf ->
+  0 <= base -> 0 <= len -> base + len <= zlen buf ->
+  get_wpa_info rd (base + 4) (base + len) =
+    Done (match s_wpa_decode (slice base len buf) with Some i => Ok i | None => Err (- EINVAL) end).
+Proof. intros. rewrite <- s_wpa_decode_h4. apply wpa_decode_exact_h; assumption || lia. Qed.
